@@ -310,13 +310,17 @@ def gen_c02_spec(rng: random.Random) -> Dict[str, Any]:
         task = rng.choice(["t_async", "t_async", "t_sync"])
         beh = gen_beh(rng, ["ok", "ok", "raise", "noresult"], allow_genexit=True)
         m: Dict[str, Any] = {"at": ats[i], "task": task, "ackable": rng.random() < 0.9,
-                             "ack_async": rng.random() < 0.5,
+                             "ack_kind": rng.choice(["sync", "async", "async", "awaitable", "task"]),
                              "ack_lat": rng.choice([0, 0, "y", 0.01, 0.2]), "beh": beh}
         if task == "t_sync":
             beh["dur"] = []
-        elif rng.random() < 0.25:
+            if rng.random() < 0.3:
+                beh["sync_hold"] = rng.choice([0.05, 0.3, 1.0])
+        elif rng.random() < 0.3:
             d = O._dur_total(beh) or 0.0
             m["timeout"] = rng.choice([0.05, 0.2, max(0.01, d - 0.01), d + 0.01, 10])
+            if rng.random() < 0.5:
+                beh["cleanup"] = rng.choice([["y"], ["y", "y"], [0.05], [0.3]])
         if rng.random() < 0.2:
             fail.append(f"m{i}")
         msgs.append(m)
@@ -410,6 +414,7 @@ def gen_c03_spec(rng: random.Random, maxn: int = 40) -> Dict[str, Any]:
     ats = gen_arrivals(rng, n)
     msgs = []
     fail = []
+    fail_cancel: List[str] = []
     hook_raise: Dict[str, List[str]] = {h: [] for h in HOOKS_W}
     kinds = ["ok", "raise", "timeout", "noresult", "malformed", "unknown", "backend", "hook"]
     # bias towards one dominant outcome so that it occurs >= A times
@@ -428,11 +433,13 @@ def gen_c03_spec(rng: random.Random, maxn: int = 40) -> Dict[str, Any]:
             m["task"] = "t_async"
             m["beh"]["dur"] = [rng.choice([0.5, 1.0, "never"])]
             m["timeout"] = rng.choice([0.05, 0.2])
+            if rng.random() < 0.6:
+                m["beh"]["cleanup"] = rng.choice([["y"], [0.05], [0.4], ["y", 0.2]])
         elif kind in ("malformed", "unknown"):
             m["kind"] = kind
             m["variant"] = rng.randint(0, 12)
         elif kind == "backend":
-            fail.append(tok)
+            (fail_cancel if rng.random() < 0.3 else fail).append(tok)
         elif kind == "hook":
             h = rng.choice(HOOKS_W)
             hook_raise[h].append(tok)
@@ -440,6 +447,8 @@ def gen_c03_spec(rng: random.Random, maxn: int = 40) -> Dict[str, Any]:
                 m["beh"]["out"] = "raise:ValueError"
         if m["task"] == "t_sync":
             m["beh"]["dur"] = []
+            if rng.random() < 0.3:
+                m["beh"]["sync_hold"] = rng.choice([0.05, 0.3, 1.0])
         msgs.append(m)
     t_probe = (ats[-1] if ats else 0.0) + 0.5
     probe_toks = []
@@ -449,11 +458,12 @@ def gen_c03_spec(rng: random.Random, maxn: int = 40) -> Dict[str, Any]:
         msgs.append({"at": t_probe, "tok": tok, "task": "t_async", "beh": {"dur": [10.0], "out": "ok"}})
     for j in range(2):
         msgs.append({"at": t_probe, "tok": f"q{j}", "task": "t_async", "beh": {"dur": [0.1], "out": "ok"}})
-    mw = {h: {"async": rng.random() < 0.5, "lat": rng.choice([0, "y", 0.01]), "raise": toks}
+    mw = {h: {"async": rng.random() < 0.5, "lat": rng.choice([0, "y", 0.01]), "raise": toks,
+              "raise_exc": rng.choice(["HookBoom", "HookBoom", "CancelledError"])}
           for h, toks in hook_raise.items() if toks}
     spec: Dict[str, Any] = {
         "cfg": {"A": A, "P": rng.choice([0, 0, 1, 2, 3])}, "msgs": msgs, "end_stream": True,
-        "backend": {"lat": rng.choice([0, "y", 0.01]), "fail": fail},
+        "backend": {"lat": rng.choice([0, "y", 0.01]), "fail": fail, "fail_cancel": fail_cancel},
         "_probe_toks": probe_toks,
     }
     if mw:
@@ -515,6 +525,7 @@ def gen_c04_spec(rng: random.Random, A: int, P: int) -> Dict[str, Any]:
     msgs = []
     t = 0.0
     lead = rng.randint(0, 2)
+    sync_tasks = rng.random() < 0.2  # slow *sync* task functions (executor threads held for virtual time)
     for i in range(n):
         if pat == "idle_burst":
             # a few early messages, an idle gap of several poll periods, then the whole backlog at once
@@ -527,9 +538,13 @@ def gen_c04_spec(rng: random.Random, A: int, P: int) -> Dict[str, Any]:
         dur = rng.choice([[0.5], [1.0], [2.0], [0.3], [5.0], ["never"], [0.05], ["y"], [0.31]])
         if pat == "idle_burst":
             dur = [0.05] if i < lead else rng.choice([[5.0], [8.0], ["never"], [2.0]])
+        if sync_tasks:
+            msgs.append({"at": round(t, 6), "task": "t_sync", "ackable": True, "ack_kind": rng.choice(["sync", "async", "async", "awaitable", "task"]),
+                         "beh": {"dur": [], "sync_hold": rng.choice([0.5, 1.0, 2.0, 5.0]), "out": rng.choice(["ok", "ok", "raise:ValueError"])}})
+            continue
         msgs.append({"at": round(t, 6), "task": "t_async", "ackable": True, "ack_async": rng.random() < 0.5,
                      "ack_lat": rng.choice([0, 0.05]), "beh": {"dur": dur, "out": rng.choice(["ok", "ok", "raise:ValueError"])}})
-    spec: Dict[str, Any] = {"cfg": {"A": A, "P": P, "ack": "when_saved"}, "msgs": msgs,
+    spec: Dict[str, Any] = {"cfg": {"A": A, "P": P, "ack": "when_saved", "threads": 32}, "msgs": msgs,
                             "backend": {"lat": rng.choice([0, 0.05, 0.2])}}
     if rng.random() < 0.25:
         # hostile extra: some messages hit a raising hook or a failing backend (the bound must survive that)
@@ -595,7 +610,7 @@ def gen_c05_spec(rng: random.Random, maxn: int = 16) -> Dict[str, Any]:
     n = rng.choice([1, 2, 3, 4, 6, 8, 12, maxn])
     ats = gen_arrivals(rng, n)
     cfg = gen_cfg(rng)
-    cfg["W"] = rng.choice([None, None, 0.5, 1.0, 5.0])
+    cfg["W"] = rng.choice([None, None, 0, 0.0, 0.5, 1.0, 5.0])
     cfg["ack"] = rng.choice(["when_saved", "when_executed", "when_received"])
     durs = DURS + [[3.0], [8.0]]
     msgs = []
@@ -603,12 +618,17 @@ def gen_c05_spec(rng: random.Random, maxn: int = 16) -> Dict[str, Any]:
         beh = gen_beh(rng, ["ok", "ok", "raise", "noresult"], durs)
         if rng.random() < (0.15 if cfg["W"] is not None else 0.03):
             beh["dur"] = ["never"]
-        m = {"at": ats[i], "task": "t_async", "ackable": rng.random() < 0.7, "ack_async": rng.random() < 0.5,
+        m = {"at": ats[i], "task": "t_async", "ackable": rng.random() < 0.7, "ack_kind": rng.choice(["sync", "async", "async", "awaitable", "task"]),
+             "ack_raise": rng.random() < 0.08,
              "ack_lat": rng.choice([0, 0, "y", 0.05, 0.4]), "beh": beh,
              "kind": "valid" if rng.random() < 0.9 else rng.choice(["malformed", "unknown"]),
              "variant": rng.randint(0, 12)}
         msgs.append(m)
     spec: Dict[str, Any] = {"cfg": cfg, "msgs": msgs, "backend": {"lat": rng.choice([0, 0, 0.05, 0.4])}}
+    if rng.random() < 0.15:
+        # hostile extra: processing of some messages fails outside the task function (raising hook)
+        toks = [f"m{i}" for i in range(n) if rng.random() < 0.3]
+        spec["mws"] = [{rng.choice(["post_execute", "post_save", "pre_execute"]): {"async": rng.random() < 0.5, "raise": toks}}]
     mode = rng.choice(["stop", "stop", "stop", "end", "none"])
     if mode == "stop":
         spec["stop_at"] = round(rng.choice([0.0, EPS, 0.1, 0.3, 0.3 + EPS, 0.45, 0.6, 1.0, 2.0, 4.0]) + rng.choice([0, 0, rng.random()]), 6)
@@ -695,7 +715,7 @@ def gen_dep_graph(rng: random.Random, depth: int, teardown_bias: bool, lat_pool:
         if style in ("plain_async", "agen", "acm"):
             nd["lat"] = rng.choice(lat_pool)
             if rng.random() < 0.3:
-                nd["td_lat"] = rng.choice(["y", 0.01])
+                nd["td_lat"] = rng.choice(["y", 0.01, 0.3, 0.5] if teardown_bias else ["y", 0.01])
         deps[name] = nd
         if level < depth:
             for _ in range(rng.choice([0, 1, 1, 2])):
@@ -725,6 +745,19 @@ def gen_c06_spec(rng: random.Random, depth: int, maxmsgs: int) -> Dict[str, Any]
             nd["subs"] = [ren[s] for s in nd["subs"]]
             deps[ren[k]] = nd
         tasks[f"task{ti}"] = {"fn": rng.choice(["async", "async", "sync"]), "deps": [ren[r] for r in roots], "ctx": True}
+        if rng.random() < 0.4:
+            tasks[f"task{ti}"]["labels"] = rng.choice([{"priority": 1}, {"team": "core", "q": 2}])
+    overrides: Dict[str, str] = {}
+    if rng.random() < 0.3 and deps:
+        # broker.dependency_overrides: a dependency is replaced by one whose own graph has an un-cached,
+        # Context-reading sub-dependency resolved after a suspension
+        orig = rng.choice(list(deps))
+        deps["ovU"] = {"style": rng.choice(["plain_async", "agen", "plain_sync"]), "cache": False, "ctx": True, "subs": [],
+                       "lat": rng.choice([0, 0.01, 0.05])}
+        deps["ovS"] = {"style": "plain_async", "cache": True, "ctx": True, "subs": [], "lat": rng.choice([0.02, 0.05, 0.1])}
+        deps["ovR"] = {"style": rng.choice(["plain_async", "plain_sync", "gen"]), "cache": deps[orig].get("cache", True),
+                       "ctx": True, "subs": ["ovS", "ovU"], "lat": 0}
+        overrides[orig] = "ovR"
     n = rng.randint(2, maxmsgs)
     msgs = []
     t = 0.0
@@ -735,9 +768,9 @@ def gen_c06_spec(rng: random.Random, depth: int, maxmsgs: int) -> Dict[str, Any]
         if tasks[tn]["fn"] == "sync":
             beh["dur"] = []
         msgs.append({"at": round(t, 6), "task": tn, "beh": beh, "ackable": rng.random() < 0.3,
-                     "labels": {"k": rng.randint(0, 9)}})
+                     "labels": {"k": rng.randint(0, 9)}, "raw_labels": rng.random() < 0.2})
     spec: Dict[str, Any] = {"cfg": {"A": rng.choice([None, 2, 4, 8]), "P": rng.choice([0, 2])},
-                            "tasks": tasks, "deps": deps, "msgs": msgs, "end_stream": True,
+                            "tasks": tasks, "deps": deps, "msgs": msgs, "end_stream": True, "overrides": overrides,
                             "backend": {"lat": rng.choice([0, 0.02])}}
     if rng.random() < 0.3:
         spec["mws"] = [{"pre_execute": {"async": True, "lat": rng.choice(["y", 0.02])}}]
@@ -794,9 +827,11 @@ def gen_c07_spec(rng: random.Random) -> Dict[str, Any]:
         elif rng.random() < 0.45:
             d = O._dur_total(beh) or 0.0
             m["timeout"] = rng.choice([0.05, 0.2, round(max(EPS, d - EPS), 7), round(d + EPS, 7), d if d > 0 else 0.1,
-                                       round(max(0.001, d / 2), 7), 10, 0.5])
+                                       round(max(0.001, d / 2), 7), 10, 0.5, 0, 0.0, -1])
             if rng.random() < 0.2:
                 beh["dur"] = ["never"]
+            if rng.random() < 0.4:
+                beh["cleanup"] = rng.choice([["y"], [0.05], [0.2]])
         if rng.random() < 0.2:
             fail.append(f"m{i}")
         msgs.append(m)
@@ -844,6 +879,8 @@ def gen_mw(rng: random.Random, hooks: List[str]) -> Dict[str, Any]:
         if rng.random() < 0.55:
             mw[h] = {"async": rng.random() < 0.5, "lat": rng.choice([0, 0, "y", 0.01, 0.05]),
                      "replace": rng.random() < 0.5}
+            if rng.random() < 0.25:
+                mw[h]["style"] = rng.choice(["awaitable", "task"])
     return mw
 
 
@@ -865,6 +902,9 @@ def gen_c10_spec(rng: random.Random) -> Dict[str, Any]:
     kick_fail = sorted(rng.sample(range(n), rng.choice([0, 0, 1, min(2, n)])))
     spec: Dict[str, Any] = {"cfg": {"A": rng.choice([1, 2, 4, None]), "P": rng.choice([0, 1])},
                             "mws": mws, "client_sends": sends, "loopback": True, "kick_fail": kick_fail,
+                            "kick_exc": [rng.choice(["BackendDown", "ConnectionError", "BrokerError", "ResultSetError",
+                                                     "TaskiqResultTimeoutError", "UnknownTaskError", "TaskiqError"])
+                                         for _ in range(3)],
                             "kick_lat": rng.choice([0, 0, 0.01]),
                             "backend": {"lat": rng.choice([0, "y", 0.02]), "fail": fail_backend},
                             "stop_at": 8.0, "horizon": 40.0, "msgs": []}
@@ -932,8 +972,13 @@ def gen_c12_spec(rng: random.Random, depth: int) -> Dict[str, Any]:
         if fn == "sync":
             beh["dur"] = []
         elif rng.random() < 0.25:
+            # a timeout label that does NOT fire (the task is faster), combined with slow teardowns
+            m["timeout"] = rng.choice([0.25, 0.3, 1.0])
+        elif rng.random() < 0.25:
             beh["dur"] = [rng.choice([0.5, "never"])]
             m["timeout"] = 0.1
+            if rng.random() < 0.5:
+                beh["cleanup"] = rng.choice([["y"], [0.05], [0.2]])
         msgs.append(m)
     spec: Dict[str, Any] = {
         "cfg": {"A": rng.choice([1, 2, 4, None]), "P": 0, "propagate": rng.random() < 0.6,
